@@ -214,13 +214,6 @@ namespace c15
   template<typename Shape_> struct IsSimplex { static constexpr bool value = false; };
   template<int n_> struct IsSimplex<Shape::Simplex<n_>> { static constexpr bool value = true; };
 
-  // capabilities the harness requests although the evaluator does not advertise them (see FINDINGS_C15.md: the
-  // Discontinuous P1 simplex evaluator passes `value|grad` instead of `ref_value|ref_grad` as its reference
-  // capabilities, so its eval_caps are empty although it implements reference values and gradients)
-  template<typename Space_, typename Shape_> struct ForcedCaps { static constexpr SpaceTags value = SpaceTags::none; };
-  template<typename T_, int n_> struct ForcedCaps<FamD1<T_>, Shape::Simplex<n_>>
-  { static constexpr SpaceTags value = SpaceTags::value | SpaceTags::grad | SpaceTags::ref_value | SpaceTags::ref_grad; };
-
   // elements whose node functionals need derivatives of the interpolated function
   template<typename Space_> struct NeedsDeriv { static constexpr bool value = false; };
   template<typename T_> struct NeedsDeriv<FamHE<T_>> { static constexpr bool value = true; };
@@ -240,7 +233,7 @@ namespace c15
     typedef Fam_<TrafoType> SpaceType;
     typedef typename TrafoType::template Evaluator<Shape_, Q>::Type TrafoEvaluator;
     typedef typename SpaceType::template Evaluator<TrafoEvaluator>::Type SpaceEvaluator;
-    static constexpr SpaceTags caps = SpaceEvaluator::eval_caps | ForcedCaps<SpaceType, Shape_>::value;
+    static constexpr SpaceTags caps = SpaceEvaluator::eval_caps;
     static constexpr bool has_hess = *(caps & SpaceTags::hess);
     static constexpr bool has_grad = *(caps & SpaceTags::grad);
     static constexpr bool has_ref = *(caps & SpaceTags::ref_value);
